@@ -45,7 +45,7 @@ META = {
                     'when the generator\'s own loops are proved'],
     'decided': ['D1 loop progress (every decoder size bounded below)', 'D2 recursion measure',
                 'D3 bounded reads', 'D4 unknown message type rejected',
-                'D5 the body signature is bounded (<= 255) before it is '
+                'D5 the body signature is a string and bounded (<= 255) before it is '
                 'split and decoded - the premise under which the quadratic '
                 'splitter is constant work'],
     'undecided': ['the constant of "work proportional to length" (signature '
@@ -518,6 +518,24 @@ def signature_bounded(ctx, rule):
                        (t[1] == '<=' and pol and k <= 255) or \
                        (t[1] == '<' and pol and k <= 256):
                         bounded = True
+            # ... and len() bounds a signature only if the value IS a
+            # string: the field is a variant, and len(['(ayay...)']) == 1
+            is_str = any(
+                kind(t) == 'call' and t[1] == 'isinstance' and pol and
+                len(t[3]) == 2 and t[3][0] == sig and
+                t[3][1] in (('builtin', 'str'),
+                            ('tuple', (('builtin', 'str'),)))
+                for t, pol in p.cond) or any(
+                kind(t) == 'cmp' and t[1] in ('is', '==') and pol and
+                kind(t[2]) == 'call' and t[2][1] == 'type' and
+                t[2][3] == (sig,) and t[3] == ('builtin', 'str')
+                for t, pol in p.cond)
+            ctx.ob(rule, fi.qualname, 'signature-is-a-string', is_str,
+                   'the body is decoded under a header-field value that was '
+                   'not tested to be a string: the field is a variant, and a '
+                   'peer can send e.g. an ARRAY holding one string of '
+                   'megabytes - its len() is 1, it passes the length bound '
+                   'and is split by the quadratic splitter')
             n += 1
             ctx.ob(rule, fi.qualname, 'signature-length-bounded', bounded,
                    'the body is decoded under a signature taken from a '
